@@ -302,7 +302,7 @@ def busStep2 (st : BusSt) (args : List String) : BusSt × String :=
       | some sd => ({ bus := newBus (some sd) }, "ok")
       | none => (st, "bad-op")
     | _ => (st, "bad-op")
-  | ["rst"] => ({ st with bus := b.reset }, "ok")
+  | ["rst"] => (Sys.reset st, "ok")
   | ["semget"] => (st, s!"{hexBV b.getSemaphore} | -")
   | ["srchi"] =>
     match b.dmaChan0GetSrcHigh with
